@@ -305,4 +305,285 @@ theorem bs_signAll_leaf (H : Bytes → Bytes) (rs : Nat) (signers : List Signer)
   rw [bs_signedBy_leaf hs i hi, List.getElem?_map]
   cases signers[i]? <;> rfl
 
+/-! ## §3 soundness of the verifier -/
+
+theorem bs_mapM_some {α β : Type} (f : α → Option β) : ∀ (l : List α) (r : List β), l.mapM f = some r →
+    l.map f = r.map some := by
+  intro l
+  induction l with
+  | nil =>
+    intro r h
+    simp only [List.mapM_nil, Option.pure_def, Option.some.injEq] at h
+    subst h
+    rfl
+  | cons a l ih =>
+    intro r h
+    rw [List.mapM_cons] at h
+    cases hfa : f a with
+    | none => simp [hfa] at h
+    | some b =>
+      cases hl : l.mapM f with
+      | none => simp [hfa, hl] at h
+      | some r' =>
+        simp [hfa, hl] at h
+        subst h
+        rw [List.map_cons, List.map_cons, hfa, ih r' hl]
+
+theorem bs_mapM_none {α β : Type} (f : α → Option β) : ∀ (l : List α) (a : α), a ∈ l → f a = none → l.mapM f = none := by
+  intro l
+  induction l with
+  | nil => intro a ha; cases ha
+  | cons x l ih =>
+    intro a ha hfa
+    rw [List.mapM_cons]
+    rcases List.mem_cons.mp ha with rfl | ha
+    · simp [hfa]
+    · cases hx : f x with
+      | none => simp
+      | some b => simp [ih a ha hfa]
+
+theorem bs_map_some_mem {α β : Type} {f : α → Option β} {l : List α} {r : List β} (h : l.map f = r.map some) :
+    ∀ b ∈ r, ∃ a ∈ l, f a = some b := by
+  intro b hb
+  have : some b ∈ l.map f := by rw [h]; exact List.mem_map.mpr ⟨b, hb, rfl⟩
+  obtain ⟨a, ha, hfa⟩ := List.mem_map.mp this
+  exact ⟨a, ha, hfa⟩
+
+/-- **everything is checked before a subset is trusted**: what `verifyVouchedSubset` accepted -/
+theorem bs_verifyVouchedSubset_sound {env : VEnv} {vs : VouchedSubset} {auths : List AugCert} {t : GoTime.T} {ver : BVer}
+    {ss : SignedSubset} {cert : AugCert} (h : verifyVouchedSubset env vs auths t ver = some (ss, cert)) :
+    vs.authority < auths.length ∧ auths[vs.authority]? = some cert ∧
+    env.keyOk cert.cert = true ∧
+    env.sigVerify cert.cert (signedMessage vs.signed ver) vs.sig = true ∧
+    decodeSignedSubset env.urlOk vs.signed = some ss ∧
+    ss.authSha256 = env.H cert.cert ∧
+    GoTime.sub (GoTime.ofUnix ss.expires 0) (GoTime.ofUnix ss.date 0) ≤ 604800 * 1000000000 ∧
+    GoTime.before t (GoTime.ofUnix ss.date 0) = false ∧
+    GoTime.after t (GoTime.ofUnix ss.expires 0) = false := by
+  unfold verifyVouchedSubset at h
+  by_cases h1 : vs.authority ≥ auths.length
+  · rw [if_pos h1] at h; cases h
+  · rw [if_neg h1] at h
+    simp only at h
+    have hlt : vs.authority < auths.length := by omega
+    have hget : auths.getD vs.authority default = auths[vs.authority] := by
+      rw [List.getD_eq_getElem?_getD, List.getElem?_eq_getElem hlt]; rfl
+    by_cases h2 : (!env.keyOk (auths.getD vs.authority default).cert) = true
+    · rw [if_pos h2] at h; cases h
+    · rw [if_neg h2] at h
+      by_cases h3 : (!env.sigVerify (auths.getD vs.authority default).cert (signedMessage vs.signed ver) vs.sig) = true
+      · rw [if_pos h3] at h; cases h
+      · rw [if_neg h3] at h
+        cases hd : decodeSignedSubset env.urlOk vs.signed with
+        | none => simp only [hd] at h; cases h
+        | some ss' =>
+          simp only [hd] at h
+          by_cases h4 : ss'.authSha256 ≠ env.H (auths.getD vs.authority default).cert
+          · rw [if_pos h4] at h; cases h
+          · rw [if_neg h4] at h
+            by_cases h5 : GoTime.sub (GoTime.ofUnix ss'.expires 0) (GoTime.ofUnix ss'.date 0) > 604800 * 1000000000
+            · rw [if_pos h5] at h; cases h
+            · rw [if_neg h5] at h
+              by_cases h6 : GoTime.before t (GoTime.ofUnix ss'.date 0) = true
+              · rw [if_pos h6] at h; cases h
+              · rw [if_neg h6] at h
+                by_cases h7 : GoTime.after t (GoTime.ofUnix ss'.expires 0) = true
+                · rw [if_pos h7] at h; cases h
+                · rw [if_neg h7] at h
+                  injection h with h
+                  injection h with hss hc
+                  subst hss
+                  rw [← hc]
+                  refine ⟨hlt, ?_, by simpa using h2, by simpa using h3, rfl, by simpa using h4, by omega,
+                    by simpa using h6, by simpa using h7⟩
+                  rw [hget, List.getElem?_eq_getElem hlt]
+
+/-- a vouched subset whose decoded validity window is wrong is refused, whatever the signature says -/
+theorem bs_verifyVouchedSubset_window {env : VEnv} {vs : VouchedSubset} {auths : List AugCert} {t : GoTime.T} {ver : BVer}
+    {ss : SignedSubset} (hd : decodeSignedSubset env.urlOk vs.signed = some ss)
+    (hbad : GoTime.sub (GoTime.ofUnix ss.expires 0) (GoTime.ofUnix ss.date 0) > 604800 * 1000000000 ∨
+      GoTime.before t (GoTime.ofUnix ss.date 0) = true ∨ GoTime.after t (GoTime.ofUnix ss.expires 0) = true) :
+    verifyVouchedSubset env vs auths t ver = none := by
+  cases hv : verifyVouchedSubset env vs auths t ver with
+  | none => rfl
+  | some p =>
+    obtain ⟨ss', cert⟩ := p
+    obtain ⟨_, _, _, _, hd', _, h1, h2, h3⟩ := bs_verifyVouchedSubset_sound hv
+    rw [hd] at hd'
+    injection hd' with hd'
+    subst hd'
+    rcases hbad with hb | hb | hb
+    · omega
+    · rw [hb] at h2; cases h2
+    · rw [hb] at h3; cases h3
+
+/-- what `NewVerifier` returns: one verified (subset, authority) pair per vouched subset, in order -/
+theorem bs_newVerifier_sound {env : VEnv} {sigs : Sigs} {t : GoTime.T} {ver : BVer}
+    {vss : List (SignedSubset × AugCert)} (h : newVerifier env sigs t ver = some vss) :
+    sigs.subsets.map (fun vs => verifyVouchedSubset env vs sigs.authorities t ver) = vss.map some :=
+  bs_mapM_some _ _ _ h
+
+theorem bs_newVerifier_mem {env : VEnv} {sigs : Sigs} {t : GoTime.T} {ver : BVer}
+    {vss : List (SignedSubset × AugCert)} (h : newVerifier env sigs t ver = some vss) :
+    ∀ p ∈ vss, ∃ vs ∈ sigs.subsets, verifyVouchedSubset env vs sigs.authorities t ver = some p :=
+  bs_map_some_mem (bs_newVerifier_sound h)
+
+/-- one bad vouched subset makes `NewVerifier` fail as a whole -/
+theorem bs_newVerifier_none {env : VEnv} {sigs : Sigs} {t : GoTime.T} {ver : BVer} {vs : VouchedSubset}
+    (hm : vs ∈ sigs.subsets) (h : verifyVouchedSubset env vs sigs.authorities t ver = none) :
+    newVerifier env sigs t ver = none :=
+  bs_mapM_none _ _ vs hm h
+
+/-- rejection, in Go `time.Time` terms: lifetime above 7 days, not yet valid, or expired -/
+theorem bs_newVerifier_rejects {env : VEnv} {sigs : Sigs} {t : GoTime.T} {ver : BVer} {vs : VouchedSubset}
+    {ss : SignedSubset} (hm : vs ∈ sigs.subsets) (hd : decodeSignedSubset env.urlOk vs.signed = some ss)
+    (hbad : GoTime.sub (GoTime.ofUnix ss.expires 0) (GoTime.ofUnix ss.date 0) > 604800 * 1000000000 ∨
+      GoTime.before t (GoTime.ofUnix ss.date 0) = true ∨ GoTime.after t (GoTime.ofUnix ss.expires 0) = true) :
+    newVerifier env sigs t ver = none :=
+  bs_newVerifier_none hm (bs_verifyVouchedSubset_window hd hbad)
+
+/-- the three time conditions on the sane range (|unix seconds| < 2^62) are the plain integer ones -/
+theorem bs_window_iff (date expires ts tn : Int)
+    (hd : -(2:Int)^62 ≤ date ∧ date < (2:Int)^62) (hx : -(2:Int)^62 ≤ expires ∧ expires < (2:Int)^62)
+    (ht : -(2:Int)^62 ≤ ts ∧ ts < (2:Int)^62) :
+    (GoTime.sub (GoTime.ofUnix expires 0) (GoTime.ofUnix date 0) > 604800 * 1000000000 ↔ expires - date > 604800) ∧
+    (GoTime.before (GoTime.ofUnix ts tn) (GoTime.ofUnix date 0) = true ↔ (ts < date ∨ (ts = date ∧ tn < 0))) ∧
+    (GoTime.after (GoTime.ofUnix ts tn) (GoTime.ofUnix expires 0) = true ↔ (expires < ts ∨ (expires = ts ∧ 0 < tn))) := by
+  refine ⟨Sxg.sub_gt_week_iff date expires hd hx, ?_, ?_⟩
+  · rw [Sxg.ofUnix_sane _ _ hd, Sxg.ofUnix_sane _ _ ht, GoTime.before_iff]
+    simp only
+    omega
+  · rw [Sxg.ofUnix_sane _ _ hx, Sxg.ofUnix_sane _ _ ht, GoTime.after, GoTime.before_iff]
+    simp only
+    omega
+
+/-- rejection corollaries in unix seconds: a subset that is valid for more than 7 days, not yet valid at
+    `ts`, or expired at `ts` makes `NewVerifier` fail -/
+theorem bs_newVerifier_rejects_unix {env : VEnv} {sigs : Sigs} {ts tn : Int} {ver : BVer} {vs : VouchedSubset}
+    {ss : SignedSubset} (hm : vs ∈ sigs.subsets) (hd : decodeSignedSubset env.urlOk vs.signed = some ss)
+    (hds : -(2:Int)^62 ≤ ss.date ∧ ss.date < (2:Int)^62) (hxs : -(2:Int)^62 ≤ ss.expires ∧ ss.expires < (2:Int)^62)
+    (hts : -(2:Int)^62 ≤ ts ∧ ts < (2:Int)^62) (htn : 0 ≤ tn)
+    (hbad : ss.expires - ss.date > 604800 ∨ ts < ss.date ∨ ss.expires < ts ∨ (ss.expires = ts ∧ 0 < tn)) :
+    newVerifier env sigs (GoTime.ofUnix ts tn) ver = none := by
+  have _ := htn
+  obtain ⟨w1, w2, w3⟩ := bs_window_iff ss.date ss.expires ts tn hds hxs hts
+  apply bs_newVerifier_rejects hm hd
+  rcases hbad with hb | hb | hb | hb
+  · exact Or.inl (w1.mpr hb)
+  · exact Or.inr (Or.inl (w2.mpr (Or.inl hb)))
+  · exact Or.inr (Or.inr (w3.mpr (Or.inl hb)))
+  · exact Or.inr (Or.inr (w3.mpr (Or.inr hb)))
+
+/-- **soundness of `VerifyExchange`**: a `verified` verdict means that one of the verifier's trusted subsets
+    lists exactly one integrity entry for this URL, that the entry is the SHA-256 of the response's header
+    block with the draft-03 integrity identifier, and that the returned payload is what the MI decoder
+    released, up to clean end of stream, under the response's `Digest` header. -/
+theorem bs_verifyExchange_sound {env : VEnv} {ver : BVer} {vss : List (SignedSubset × AugCert)} {e : Exch}
+    {p a : Bytes} (h : verifyExchange env ver vss e = .verified p a) :
+    ∃ ss auth rhs rh, (ss, auth) ∈ vss ∧ a = auth.cert ∧
+      ss.subsetHashes.find? (·.1 == e.url) = some (e.url, rhs) ∧
+      rhs.variantsValue = [] ∧ rhs.hashes = [rh] ∧
+      headerSha256 env.H e.resp = some rh.headerSha256 ∧
+      rh.payloadIntegrityHeader = Mice.Enc.draft03.integrityIdentifier ∧
+      get e.resp.headers hDigest ≠ [] ∧
+      Mice.decodeAll env.H .draft03 e.resp.body (get e.resp.headers hDigest) 16384 = (p, .eof) := by
+  unfold verifyExchange at h
+  cases hf : vss.findSome? (fun (x : SignedSubset × AugCert) =>
+      (x.1.subsetHashes.find? (·.1 == e.url)).map fun kv => (kv.2, x.2)) with
+  | none => simp only [hf] at h; cases h
+  | some q =>
+    obtain ⟨rhs, auth⟩ := q
+    simp only [hf] at h
+    obtain ⟨x, hx, hfx⟩ := List.exists_of_findSome?_eq_some hf
+    obtain ⟨ss, auth'⟩ := x
+    simp only at hfx
+    cases hfind : ss.subsetHashes.find? (·.1 == e.url) with
+    | none => rw [hfind] at hfx; cases hfx
+    | some kv =>
+      rw [hfind] at hfx
+      simp only [Option.map_some, Option.some.injEq, Prod.mk.injEq] at hfx
+      obtain ⟨hkv, hauth⟩ := hfx
+      subst hauth
+      have hk : kv.1 = e.url := by
+        have := List.find?_some hfind
+        simpa using this
+      have hkv' : kv = (e.url, rhs) := by
+        obtain ⟨k, v⟩ := kv
+        simp only at hk hkv
+        rw [hk, hkv]
+      by_cases h1 : rhs.variantsValue.length ≠ 0 ∨ rhs.hashes.length ≠ 1
+      · rw [if_pos h1] at h; cases h
+      · rw [if_neg h1] at h
+        have hvv : rhs.variantsValue = [] := by
+          apply List.eq_nil_of_length_eq_zero; omega
+        have hlen : rhs.hashes.length = 1 := by omega
+        obtain ⟨rh, hrh⟩ : ∃ rh, rhs.hashes = [rh] := by
+          cases hh : rhs.hashes with
+          | nil => rw [hh] at hlen; cases hlen
+          | cons r rest =>
+            cases rest with
+            | nil => exact ⟨r, rfl⟩
+            | cons r2 rest2 => rw [hh] at hlen; simp at hlen
+        have hhd : rhs.hashes.headD default = rh := by rw [hrh]; rfl
+        rw [hhd] at h
+        cases hhs : headerSha256 env.H e.resp with
+        | none => simp only [hhs] at h; cases h
+        | some hs =>
+          simp only [hhs] at h
+          by_cases h2 : hs ≠ rh.headerSha256
+          · rw [if_pos h2] at h; cases h
+          · rw [if_neg h2] at h
+            by_cases h3 : Mice.Enc.draft03.integrityIdentifier ≠ rh.payloadIntegrityHeader
+            · rw [if_pos h3] at h; cases h
+            · rw [if_neg h3] at h
+              by_cases h4 : get e.resp.headers hDigest = []
+              · rw [if_pos h4] at h; cases h
+              · rw [if_neg h4] at h
+                cases hdec : Mice.decodeAll env.H .draft03 e.resp.body (get e.resp.headers hDigest) 16384 with
+                | mk out st =>
+                  rw [hdec] at h
+                  cases st with
+                  | eof =>
+                    simp only at h
+                    injection h with hp ha
+                    subst hp
+                    refine ⟨ss, auth', rhs, rh, hx, ha.symm, by rw [hfind, hkv'], hvv, hrh, ?_, ?_, h4, rfl⟩
+                    · have : hs = rh.headerSha256 := by simpa using h2
+                      rw [this]
+                    · have : Mice.Enc.draft03.integrityIdentifier = rh.payloadIntegrityHeader := by simpa using h3
+                      exact this.symm
+                  | ok => simp only at h; cases h
+                  | errValidation => simp only at h; cases h
+                  | errOther => simp only at h; cases h
+
+/-- combined with C15: if the `Digest` header of the response is the digest of an honest record list, the
+    verified payload is that committed payload — or a SHA-256 collision is exhibited -/
+theorem bs_verifyExchange_payload {env : VEnv} (hlen : ∀ x, (env.H x).length = 32) {ver : BVer}
+    {vss : List (SignedSubset × AugCert)} {e : Exch} {p a : Bytes}
+    (h : verifyExchange env ver vss e = .verified p a) (recs : List Bytes) (hne : recs ≠ [])
+    (hdig : get e.resp.headers hDigest = Mice.formatDigestHeader .draft03 (Spec.Mice.chain env.H recs)) :
+    p = recs.flatten ∨ Spec.Mice.Collision env.H := by
+  obtain ⟨_, _, _, _, _, _, _, _, _, _, _, _, hdec⟩ := bs_verifyExchange_sound h
+  rw [hdig] at hdec
+  have := C15.decodeAll_sound env.H hlen .draft03 recs hne e.resp.body 16384
+  rw [hdec] at this
+  rcases this with hs | hc
+  · exact Or.inl (hs.2 rfl)
+  · exact Or.inr hc
+
+/-- end to end: a `verified` verdict of a verifier built by `NewVerifier` rests on a vouched subset of the
+    section whose signature verified under the authority it indexes -/
+theorem bs_verified_chain {env : VEnv} {sigs : Sigs} {t : GoTime.T} {ver : BVer}
+    {vss : List (SignedSubset × AugCert)} {e : Exch} {p a : Bytes}
+    (hn : newVerifier env sigs t ver = some vss) (h : verifyExchange env ver vss e = .verified p a) :
+    ∃ vs ∈ sigs.subsets, ∃ ss cert, verifyVouchedSubset env vs sigs.authorities t ver = some (ss, cert) ∧
+      a = cert.cert ∧ sigs.authorities[vs.authority]? = some cert ∧
+      env.sigVerify cert.cert (signedMessage vs.signed ver) vs.sig = true ∧
+      decodeSignedSubset env.urlOk vs.signed = some ss ∧
+      (ss.subsetHashes.find? (·.1 == e.url)).isSome = true := by
+  obtain ⟨ss, auth, rhs, rh, hmem, ha, hfind, _⟩ := bs_verifyExchange_sound h
+  obtain ⟨vs, hvs, hv⟩ := bs_newVerifier_mem hn _ hmem
+  obtain ⟨_, hidx, _, hsv, hd, _⟩ := bs_verifyVouchedSubset_sound hv
+  exact ⟨vs, hvs, ss, auth, hv, ha, hidx, hsv, hd, by rw [hfind]; rfl⟩
+
 end WebPkg.BSig
